@@ -416,6 +416,27 @@ pub fn run_scenario(job: &Value) -> Value {
         }
     }
     settle(&ctx, 20, Instant::now() + Duration::from_millis(500));
+    // children end on their own threads: wait until every session log is closed (bounded; a loaded machine may start a
+    // child's thread late, its queue is processed in order nevertheless)
+    {
+        let t0 = Instant::now();
+        let mut last = total_records(&ctx);
+        let mut since = Instant::now();
+        while t0.elapsed() < Duration::from_secs(5) {
+            let all = ctx.sessions.lock().unwrap().iter().all(|l| *l.ended.lock().unwrap());
+            if all {
+                break;
+            }
+            std::thread::sleep(Duration::from_millis(2));
+            let n = total_records(&ctx);
+            if n != last {
+                last = n;
+                since = Instant::now();
+            } else if since.elapsed() >= Duration::from_millis(700) {
+                break;
+            }
+        }
+    }
     // child sessions that never ended
     let logs: Vec<Arc<SessLog>> = ctx.sessions.lock().unwrap().clone();
     let mut finals = serde_json::Map::new();
